@@ -25,7 +25,7 @@ def work(sid):
     try:
         d = os.path.join(OUT, sid)
         sd = os.path.join(ROOT, "seeded", sid)
-        if not os.path.isdir(sd) and not os.path.exists(os.path.join(ROOT, ".work", "seed-rejected", sid + ".json")):
+        if not os.path.isdir(sd) and not os.path.exists(os.path.join("/tmp/mut/rejected", sid + ".json")):
             log("confirm " + sid)
             p = subprocess.run([os.path.join(ROOT, "seedtest.py"), d, "--skip-check"], cwd=ROOT, capture_output=True, text=True)
             open("/tmp/mut/confirm-%s.log" % sid, "w").write(p.stdout + p.stderr)
@@ -64,7 +64,7 @@ with ThreadPoolExecutor(5) as ex:
             if time.time() - os.path.getmtime(mj) < 180:
                 continue
             sd = os.path.join(ROOT, "seeded", sid)
-            done = os.path.exists(os.path.join(ROOT, ".work", "seed-rejected", sid + ".json"))
+            done = os.path.exists(os.path.join("/tmp/mut/rejected", sid + ".json"))
             if os.path.isdir(sd):
                 try:
                     m = json.load(open(os.path.join(sd, "meta.json")))
